@@ -232,6 +232,21 @@ def run(ctx):
                 if a != hs or b != hs:
                     ctx.violation("property_fails", f"chunked hashing (chunk {chunk}) differs from unchunked hashing",
                                   {"class": "chunking", "graph": gd, "config": cfgd, "batch": batch, "chunk": chunk}, True)
+        # a symbol that does not fit the code width must be refused - never silently truncated to a state that exists (a seed-independent collision)
+        if graph.string_encoder is not None and gd["kind"] == "perm" and int(graph.string_encoder.w) < 62:
+            w_ = int(graph.string_encoder.w)
+            alien = list(batch[0])
+            alien[rng.randrange(len(alien))] += 2 ** w_ * rng.choice([1, 1, 2, 3])
+            try:
+                e2 = graph.encode_states(torch.tensor([batch[0], alien], dtype=torch.int64))
+                h2 = [int(v) for v in graph.hasher.make_hashes(e2).tolist()]
+                u2, _ = graph.get_unique_states(e2)
+                ctx.count("alien_symbol_accepted")
+                if h2[0] == h2[1] or len(u2) != 2:
+                    ctx.violation("property_fails", f"a state with a symbol >= 2^{w_} is encoded like a different, valid state (merged by de-duplication)",
+                                  {"class": "alien_symbol", "graph": gd, "config": cfgd, "states": [batch[0], alien]}, True)
+            except AssertionError:
+                ctx.count("alien_symbol_refused")
         us, uh = graph.get_unique_states(enc)
         us_dec = G.flat_states(graph.decode_states(us))
         uh = [int(v) for v in uh.tolist()]
